@@ -35,6 +35,23 @@ fn superpos_late<T: Dom>(vk: VK, k: usize, from: usize) {
         }
     }
 }
+/// the same for the recursive filters: both streams hold one symbolic level each for `from - 2` updates (so the filter states stay
+/// forms in two variables), then take fresh values; stated from step `from` on
+fn superpos_level<T: Dom>(vk: VK, k: usize, from: usize) {
+    let (mut vx, mut vy, mut vz) = (build::<T>(&vk, echo()), build::<T>(&vk, echo()), build::<T>(&vk, echo()));
+    let (a, b) = (T::input("a"), T::input("b"));
+    let (lx, ly) = (T::input("levelx"), T::input("levely"));
+    for t in 0..k {
+        let (x, y) = if t + 2 < from { (lx, ly) } else { (T::input(&format!("x{t}")), T::input(&format!("y{t}"))) };
+        vx.update(x); vy.update(y); vz.update(a * x + b * y);
+        if t < from { continue; }
+        match (vx.last(), vy.last(), vz.last()) {
+            (Some(p), Some(q), Some(r)) => T::oblige(&format!("{} t={t}: view(a*x+b*y) == a*view(x)+b*view(y)", vk.name()), eq(r, a * p + b * q)),
+            (None, None, None) => {}
+            _ => T::oblige(&format!("{} t={t}: readiness does not depend on the values", vk.name()), Cond::Bool(false)),
+        }
+    }
+}
 fn superpos_gamma<T: Dom>(k: usize) {
     let g = T::input("gamma");
     T::assume(Cond::And(vec![le(T::zero(), g), lt(g, T::one())]));
@@ -94,6 +111,9 @@ pub fn units(tier: Tier, _seed: u64) -> Vec<Unit> {
     for vk in [VK::Sma(3), VK::Sma(5), VK::Cumulative(3)] {
         u.push(unit!(format!("C10/superposition/{}/k=262/stated-from-254", vk.name()), superpos_late(vk.clone(), 262usize, 254usize)));
     }
+    for vk in [VK::Ema(3), VK::Alma(3), VK::CyberCycle(3), VK::LaguerreFilter(0.5)] {
+        u.push(unit!(format!("C10/superposition/{}/k=262/level-then-free-from-254", vk.name()), superpos_level(vk.clone(), 262usize, 254usize)));
+    }
     for x in u.iter_mut().skip(first) { x.budget_s = 40.0; x.path_cap = 300; x.max_decisions = 60000; }
     u.push(unit!("C10/superposition/LaguerreFilter(gamma symbolic)/k=5", superpos_gamma(if tier == Tier::Quick { 4usize } else { 5usize })));
     u
@@ -101,7 +121,7 @@ pub fn units(tier: Tier, _seed: u64) -> Vec<Unit> {
 pub fn meta() -> Meta {
     Meta {
         functions: vec!["Sma", "Ema", "Alma", "Cumulative", "LaguerreFilter", "SuperSmoother", "RoofingFilter", "CyberCycle — each ::{new,update,last}, three instances driven on x, y and a*x+b*y"],
-        bounds: "N in {1..10,12,16} (quick) / {1..13,16,20,32} (thorough); k = 2N+4 (N+M+5 for Roofing); superposition also over 262 updates (stated from step 254 on) for Sma(3), Sma(5), Cumulative(3), all comparison paths (the recursive filters' exact coefficients make the same run unaffordable); a, b, c and all inputs are solver variables (any reals, including 0 and negatives); LaguerreFilter gamma in {0,.2,.5,.8,.95} and symbolic gamma in [0,1) for k<=5; DC obligations at t = 8N (+warm-up)",
+        bounds: "N in {1..10,12,16} (quick) / {1..13,16,20,32} (thorough); k = 2N+4 (N+M+5 for Roofing); superposition also over 262 updates (stated from step 254 on) for Sma(3), Sma(5), Cumulative(3) on free inputs, and for Ema(3), Alma(3), CyberCycle(3), LaguerreFilter(0.5) on two symbolic levels held for 252 updates followed by free values, all comparison paths (SuperSmoother and RoofingFilter: the exact coefficients after 260 steps make the run unaffordable); a, b, c and all inputs are solver variables (any reals, including 0 and negatives); LaguerreFilter gamma in {0,.2,.5,.8,.95} and symbolic gamma in [0,1) for k<=5; DC obligations at t = 8N (+warm-up)",
         outside: vec!["f64 rounding ('up to rounding in f64')", "N > 16, longer streams", "DC convergence slower than the stated horizon"],
         assumptions: vec!["filter coefficients (exp/cos/sin of concrete arguments) are evaluated with the platform libm and enter as exact rationals"],
     }
